@@ -122,6 +122,27 @@ def generate(repo, emit, src, func_body):
     for k in ('exn_src_try', 'exn_src_try_end', 'exn_src_try_fail', 'exn_src_throw', 'exn_src_catch',
               'exn_src_buffer', 'exn_src_len'):
         bodies.pop(k, None)
+    # Exception_Error: a sequence of output calls (print_to / fprintf / fflush / Exception_Backtrace) that
+    # reports "Uncaught <obj>" and the message on stderr and then leaves through exit(EXIT_FAILURE) —
+    # checked on the parsed statements, not on the text (flushing a stream more is the same function)
+    eb = bodies.pop('exn_src_error', None)
+    ok = False
+    try:
+        import exn_symex
+        sts = exn_symex.Parser(eb).block()[1] if eb else []
+        calls = [s[1] for s in sts if s[0] == 'expr' and s[1][0] == 'call']
+        on_stderr = lambda c: c[2] and c[2][0] == ('call', '$', [('id', 'File'), ('id', 'stderr')])
+        is_e = lambda x, f: x == ('field', ('id', 'e'), f)
+        ok = (len(calls) == len(sts) and len(sts) >= 2
+              and all(c[1] in ('print_to', 'fprintf', 'fflush', 'Exception_Backtrace', 'exit') for c in calls)
+              and calls[-1] == ('call', 'exit', [('id', 'EXIT_FAILURE')])
+              and sum(1 for c in calls if c[1] == 'exit') == 1
+              and any(c[1] == 'print_to' and on_stderr(c) and len(c[2]) == 4 and c[2][2][0] == 'str'
+                      and 'Uncaught %$' in c[2][2][1] and is_e(c[2][3], 'obj') for c in calls)
+              and any(c[1] == 'print_to' and on_stderr(c) and len(c[2]) == 4 and is_e(c[2][3], 'msg') for c in calls))
+    except Exception:
+        ok = False
+    emit('exn_error_reports_and_exits', 'Definition exn_error_reports_and_exits : bool := true.   (* source: Exception_Error prints "Uncaught %$" with e->obj and the message to stderr, then exit(EXIT_FAILURE) *)' if ok else None)
     for coq, t in bodies.items():
         emit(coq, None if t is None else 'Definition %s : string := %s%%string.' % (coq, coq_string(t)))
 
